@@ -5,6 +5,7 @@ import (
 	"fmt"
 	"go/ast"
 	"go/parser"
+	"go/scanner"
 	"go/token"
 	"os"
 	"os/exec"
@@ -249,7 +250,14 @@ func runC12(args []string) {
 		band := filepath.Join(dir, "o", p.pkg, "k_band.go")
 		scopes, aliases, err := declaredIdents(band)
 		if err != nil {
-			continue // unparsable output is C04's finding
+			// The output does not parse. If that is because a keyword was handed out as an identifier,
+			// it is this property's business: look for `keyword :=`, `keyword =`, `keyword, x :=` and
+			// `keyword <type>` inside a var block at token level.
+			for _, kw := range keywordsUsedAsIdentifiers(band) {
+				genChecked++
+				rc.Add(Finding{Kind: "reserved-name", Site: "generator", Pre: p.Pre, Detail: fmt.Sprintf("generated code uses the keyword %q as an identifier (the file does not parse)", kw), Witness: "E2: " + p.Name, Replay: map[string]any{"files": p.Files, "generated": readFile(band)}})
+			}
+			continue // other unparsable output is C04's finding
 		}
 		genChecked++
 		pkgNames := packageLevelNames(p.Files, p.pkg)
@@ -306,4 +314,47 @@ func runC12(args []string) {
 	}
 	rc.Assume = []string{"every transition is executed on the real allocator (there is no separate model), so traces_validated_against_impl equals transitions", "bounded history depth and name alphabet as listed"}
 	rc.Finish()
+}
+
+// keywordsUsedAsIdentifiers scans a file that does not parse for keywords in identifier position.
+func keywordsUsedAsIdentifiers(path string) []string {
+	src, err := os.ReadFile(path)
+	if err != nil {
+		return nil
+	}
+	fset := token.NewFileSet()
+	var sc scanner.Scanner
+	sc.Init(fset.AddFile(path, -1, len(src)), src, nil, 0)
+	type tk struct {
+		tok token.Token
+		lit string
+	}
+	var toks []tk
+	for {
+		_, t, lit := sc.Scan()
+		if t == token.EOF {
+			break
+		}
+		toks = append(toks, tk{t, lit})
+	}
+	seen := map[string]bool{}
+	var out []string
+	for i, t := range toks {
+		if !t.tok.IsKeyword() || i+1 >= len(toks) {
+			continue
+		}
+		next := toks[i+1].tok
+		prevOK := i == 0 || toks[i-1].tok == token.SEMICOLON || toks[i-1].tok == token.LBRACE || toks[i-1].tok == token.COMMA || toks[i-1].tok == token.LPAREN
+		if prevOK && (next == token.DEFINE || next == token.ASSIGN || next == token.COMMA) {
+			// `range :=`, `map, err :=` ... but not legitimate `return x, nil` / `case a, b:` forms
+			if t.tok == token.RETURN || t.tok == token.CASE || t.tok == token.DEFAULT || t.tok == token.VAR {
+				continue
+			}
+			if !seen[t.tok.String()] {
+				seen[t.tok.String()] = true
+				out = append(out, t.tok.String())
+			}
+		}
+	}
+	return out
 }
